@@ -227,6 +227,14 @@ def gen_extract_v():
                 for n in blk.split():
                     if n not in names:
                         names.append(n)
+    # names called by the OCaml glue must be unambiguous in the single model.ml
+    defs = {}
+    for f in sorted(glob.glob(os.path.join(COQ, "theories", "*.v"))):
+        for n in re.findall(r"^(?:Definition|Fixpoint|Inductive|Record)\s+(\w+)", open(f).read(), re.M):
+            defs.setdefault(n, []).append(os.path.basename(f))
+    amb = ["%s (%s)" % (n, ",".join(defs[n])) for n in names if len(set(defs.get(n, []))) > 1]
+    if amb:
+        raise RuntimeError("extracted names defined in more than one module (prefix them): " + "; ".join(amb))
     text = ("(* generated by harness/vlib.py from EXTRACT markers — do not edit.\n"
             "   Only ExtrOcamlBasic: bool, option, list, prod, unit, sumbool map to OCaml's\n"
             "   own types; N, Z, positive and nat stay the Coq inductive datatypes. *)\n"
